@@ -189,6 +189,10 @@ func runGroups(rt *rapid.T, w int, a, b val, n uint, groups []string, label stri
 		switch g {
 		case "shift":
 			c.B, c.N = val{}, n
+			// the same value at the limb-aligned amount just below (0, 64, 128, ...)
+			if !evaluate(rt, g, opCase{W: w, A: a, N: n / 64 * 64}, label) {
+				return
+			}
 		case "shift64":
 			c.N = n % 65
 		case "arith64":
@@ -226,7 +230,7 @@ func genRelated(t *rapid.T, w int) (val, val, string) {
 	a := genVal(t, "a", w)
 	A := a.big()
 	mode := rapid.SampledFrom([]string{"equal", "plus1", "minus1", "sum=max", "sum=2^w", "prod<=max", "prod>max",
-		"dividend=d*q+r", "shifted", "differ_in_one_limb", "pow2_pair"}).Draw(t, "mode")
+		"dividend=d*q+r", "dividend=d*q+r", "shifted", "differ_in_one_limb", "pow2_pair"}).Draw(t, "mode")
 	switch mode {
 	case "equal":
 		return a, a, mode
